@@ -129,6 +129,22 @@ fn gen_location(rng: &mut Rng) -> String {
         _ => rng.range(0, 213) as usize,
     };
     let mut s = String::new();
+    if rng.chance(1, 8) {
+        // what else the format allows as a location: a URL with a scheme, an absolute path -
+        // also one that points below the directory of the manifest itself ("<DIR>" is replaced by
+        // that directory when the operation runs)
+        let tail: String = (0..rng.range(1, 12)).map(|_| (b'a' + rng.below(26) as u8) as char).collect();
+        return match rng.below(8) {
+            0 => format!("https://packs.example.org/{tail}/p.jbkc"),
+            1 => format!("file:///srv/jbk/{tail}.jbkc"),
+            2 => format!("s3://bucket-{tail}/p.jbkc"),
+            3 => format!("x-jbk+custom.v1://{tail}"),
+            4 => format!("/abs/{tail}/p.jbkc"),
+            5 => format!("<DIR>/packs/{tail}.jbkc"),
+            6 => format!("<DIR>/{tail}.jbkc"),
+            _ => format!("file:{tail}.jbkc"),
+        };
+    }
     if rng.chance(1, 4) {
         // a path with several components
         let parts = rng.range(2, 5);
@@ -415,12 +431,21 @@ fn run_history(dir: &Path, img: &Image, ops: &[Op]) -> (Vec<String>, usize) {
             continue;
         }
         steps += 1;
+        let here = dir.to_string_lossy().to_string();
+        let resolve = |l: &String| -> String {
+            let r = l.replace("<DIR>", &here);
+            if r.len() <= 213 {
+                r
+            } else {
+                l.replace("<DIR>", "/d")
+            }
+        };
         let (uuid, loc, target) = match op {
-            Op::Set { pack, loc } => (model[*pack].uuid, loc.clone(), Some(*pack)),
+            Op::Set { pack, loc } => (model[*pack].uuid, resolve(loc), Some(*pack)),
             Op::SetUnknown { uuid_seed, loc } => {
                 let mut b = [0u8; 16];
                 Rng::derive(*uuid_seed, "c12-unknown-uuid", 0).fill(&mut b);
-                (uuid::Uuid::from_bytes(b), loc.clone(), None)
+                (uuid::Uuid::from_bytes(b), resolve(loc), None)
             }
             Op::RestoreAll | Op::FileSizeLimit { .. } => unreachable!(),
             Op::SetEquivalent { pack, how } => {
